@@ -16,7 +16,9 @@ open Nice.Flow Nice.Gen.RecvMessage
 /-- what a tracked store may receive: a gboolean at the listed sites, any RecvStatus elsewhere -/
 def hv : Havoc := fun site _ => if boolSites.elem site then [0, 1] else statusValues
 
-def anyEvent : Policy := fun _ _ _ => true
+/-- event kind 5 = the payload is handed on as the peer's data without being returned to the caller (queued until a pair is
+    selected, or fed to the pseudo-TCP socket): only after the source gate said yes -/
+def anyEvent : Policy := fun _ kind σ => kind != 5 || σ.r1 == 1
 
 /-- `retval` is uninitialised; the gate has not been asked; the handler has not been asked -/
 def init : List St := statusValues.map fun v => { r0 := v, r1 := 2, r2 := 2, r3 := 0 }
@@ -37,6 +39,14 @@ theorem C03_data_only_from_validated_source {σ0 : St} (h0 : σ0 ∈ init) {tr :
   have := List.all_eq_true.mp summary_ok.2 _ h
   simp only [outOk, hs, bne_self_eq_false, Bool.false_or, Bool.and_eq_true, beq_iff_eq, bne_iff_ne, ne_eq] at this
   exact this
+
+/-- **C03_reliable_data_only_from_validated_source.**  In reliable mode the payload is queued for / fed to pseudo-TCP only after
+    nice_component_verify_remote_candidate said yes for this datagram. -/
+theorem C03_reliable_data_only_from_validated_source {σ0 : St} (h0 : σ0 ∈ init) {tr : List Ev} {σ1 : St} {o : Out}
+    (hx : Exec hv prog σ0 tr σ1 o) : ∀ e ∈ tr, e.kind = 5 → e.st.r1 = 1 := by
+  intro e he hk
+  have hp := events_satisfy_policy summary_ok.1 h0 hx e he
+  simpa [anyEvent, hk] using hp
 
 /-- **C02/C06_demux_same_padding.** -/
 theorem demux_same_padding : fastPadArg = fullPadArg := by decide
